@@ -360,7 +360,7 @@ def r8_every_node_written(idx, r):
     tc = idx.method(OP, "_performTightCoupling")
     w2 = next((c for c in iter_calls(tc.node) if call_attr(c) == "writeDBEveryNode"), None)
     conds = sorted((norm(t), p) for t, p in path_conditions(tc.node, w2)) if w2 is not None else None
-    r.require(w2 is not None and conds == sorted([("not self.couplingIsActive()", False), ("writeDB", True)]), "performTightCoupling:writes-every-node", tc, node=w2,
+    r.require(w2 is not None and conds == sorted([("self.couplingIsActive()", True), ("writeDB", True)]), "performTightCoupling:writes-every-node", tc, node=w2,
               msg=f"with tight coupling the node must be written after the iterations for EVERY cycle (also those exempt from coupling); write happens under {conds}")
     ca = idx.method(OP, "couplingIsActive")
     ret = next((n for n in walk_local(ca.node) if isinstance(n, ast.Return)), None)
